@@ -94,6 +94,42 @@ def run? (v : Variant) (cfg : Cfg) : St α → List (Op α) → Option (St α)
     | none => none
     | some s' => run? v cfg s' os
 
+def Op.isWrite : Op α → Bool
+  | .write _ => true
+  | _ => false
+
+/-! ### file metadata
+
+The real file also has metadata (inode, size, modification time).  The loop's fingerprint hashes the CONTENT
+only, so metadata is state of the environment that no step of the loop reads.  `MOp` makes that explicit: a
+write carries the metadata the environment leaves behind (new, or restored to an earlier value: `cp -p`,
+`rsync -t`, os.Chtimes, a second same-length write inside one mtime granule), `touch` changes metadata only. -/
+
+inductive MOp (α μ : Type) where
+  | write (c : α) (m : μ)     -- content and metadata after the operation (any inode / size / mtime)
+  | touch (m : μ)             -- chmod / chtimes / …: content untouched
+  | loop (o : Op α)           -- any step of the plain machine; `.write c` here is a rewrite that leaves
+                              -- (inode, size, mtime) exactly as they were
+
+/-- one step of the machine whose environment carries metadata `m` -/
+def stepM? {μ : Type} (v : Variant) (cfg : Cfg) (s : St α) (m : μ) : MOp α μ → Option (St α × μ)
+  | .write c m' => (step? v cfg s (.write c)).map fun s' => (s', m')
+  | .touch m' => some (s, m')
+  | .loop o => (step? v cfg s o).map fun s' => (s', m)
+
+def runM? {μ : Type} (v : Variant) (cfg : Cfg) : St α → μ → List (MOp α μ) → Option (St α × μ)
+  | s, m, [] => some (s, m)
+  | s, m, o :: os => match stepM? v cfg s m o with
+    | none => none
+    | some (s', m') => runM? v cfg s' m' os
+
+/-- forget the metadata: what the loop can observe of a history -/
+def eraseMeta {μ : Type} : List (MOp α μ) → List (Op α)
+  | [] => []
+  | .write c _ :: r => .write c :: eraseMeta r
+  | .touch _ :: r => eraseMeta r
+  | .loop o :: r => o :: eraseMeta r
+
 /-- contents seen by the callback, oldest first -/
 def seen (s : St α) : List α := (s.calls.map (·.2)).reverse
 
@@ -102,10 +138,6 @@ def lastSeenL (e0 : α) : List (Nat × α) → α
   | [] => e0
   | (_, c) :: _ => c
 def lastSeen (e0 : α) (s : St α) : α := lastSeenL e0 s.calls
-
-def Op.isWrite : Op α → Bool
-  | .write _ => true
-  | _ => false
 
 /-- no two neighbours equal -/
 def noAdjDup : List α → Bool
